@@ -8,7 +8,7 @@ import numpy as np
 
 from .util import arr, jsonable
 
-GEOMS = ["lin", "tight", "log", "logedge", "mixedlog", "unb", "mixedunb", "wide", "offcentre", "logdecade", "nicelin", "offset"]
+GEOMS = ["lin", "tight", "log", "logedge", "mixedlog", "unb", "mixedunb", "wide", "offcentre", "logdecade", "nicelin", "offset", "nearid"]
 
 
 def rng_for(seed, prop, idx):
@@ -82,6 +82,10 @@ def gen_bounds(rng, D, geom):
             w = float(rng.uniform(2, 30))
             lb[i], ub[i] = c_ - w / 2, c_ + w / 2
             plb[i], pub[i] = lb[i] + 0.2 * w, ub[i] - 0.2 * w
+        elif g == "nearid":
+            # internal coordinates almost equal to the user's (plausible box ~[-1,1]): x/u mix-ups stay plausible
+            plb[i], pub[i] = -1.0 + float(rng.uniform(-0.02, 0.02)), 1.0 + float(rng.uniform(-0.02, 0.02))
+            lb[i], ub[i] = -float(rng.choice([2.0, 3.0, 5.0])), float(rng.choice([2.0, 3.0, 5.0]))
         elif g == "offcentre":
             lo = rng.uniform(-10, 0)
             w = rng.uniform(1, 20)
